@@ -49,6 +49,13 @@ CHECKS = {
         note="Trusted: ASE neighbor_list is what the code uses; the oracle is independent (explicit image enumeration). Lattice distances never equal a cutoff.",
         technique="exhaustive enumeration of small inputs on the implementation against bitwise-copy and union-find oracles",
     ),
+    "C11": dict(
+        category="model_checking",
+        text="Every label array of length 0-4 (thorough 0-5) over {-1,0,1,2,5} x operations {Box, Ball, Translation, Rotation} x {random, every pre-selected} target, with every answer of the particle choice enumerated on the real DisplacementMove: moved atoms == atoms of the selected label, displacement == the single recorded operation result (common vector / rigid), negative labels never move, uniform choice over eligible labels, failure changes nothing. Composites D*n and D+...+D (n=1..3): every choice sequence; no particle twice, moved == min(n, eligible), report equals what positions show.",
+        design_ref="4-C11",
+        note="One proposal value per continuous draw (the statement is about which atoms move). Atoms <= 5, unconstrained.",
+        technique="exhaustive enumeration of inputs and particle-choice answers on the implementation with set/shape oracles",
+    ),
 }
 
 NA_REASON = "check not built yet in this session (design in DESIGN.md); no claim is made"
